@@ -1988,3 +1988,14 @@ PROPS["C03"]["rule"] += (" Tag serp / disp 'deep' (c03::deep): depth x indent - 
                          "wrapper, serialised compact and pretty with every indent of INDENTS plus four blanks, eight blanks, two tabs (every depth) and 33 blanks (depths 1-3, "
                          "around every multiple of 16, the deepest), per-write buffers at every eighth depth, and the corresponding Value through {} / {:#} / to_string / "
                          "to_string_pretty (op disp); quick tier: one innermost size per (depth, shape).")
+DEPTH_LINES_RULE = (" Tag depth-lines / depth-lines-open / depth-lines-cut / depth-lines-str (c01::depth_lines): nests of 127 / 128 / 129 / 140 containers - arrays only, objects only, "
+                    "alternating with either kind outermost, arrays with a BRACE as 128th opener, objects with a BRACKET as 128th opener - with five kinds of gap (none, newline, "
+                    "blank, CR LF, newline + blanks; in objects also before the key, the colon and the value) between the levels; complete, unclosed, cut directly after the 128th "
+                    "opening bracket and one byte later; after string literals that hold brackets / escaped quotes / an escaped backslash and after closed siblings.")
+PROPS["C11"]["rule"] += DEPTH_LINES_RULE + (" Verdict (Drv/C01.lean judgeDepthPos, also in lcs of Drv/LineCol.lean): a 'recursion limit exceeded' syntax error is no longer exempt from "
+                    "the position check - it must be reported exactly at lineCol(input, i + 1), i the index of the opening bracket ([ or {, outside string literals) that raises "
+                    "the nesting depth to 128, found by the lexical scan Spec.Pos.depthOpener (lean/SJ/Spec/PosDepth.lean; independent of the parser model and of Spec.Pos.scanValue; "
+                    "kernel-checked examples beside it). Tag lcs:deep (linecol.rs): 108 streams whose second / third / only item nests 127-129 deep (brackets, braces, a brace as 128th "
+                    "opener, alternating; levels on one line, on their own lines, CR LF + blank) followed by another item - the error item sits at the 128th opener of ITS item.")
+PROPS["C09"]["rule"] += DEPTH_LINES_RULE
+PROPS["C14"]["rule"] += " Tag depth-lines (c01::depth_lines) as in C11."
